@@ -123,6 +123,16 @@ SCC_BADTC = """Scenarist_SCC V1.0
 
 0:0:3\t942f 942f
 """
+SCC_ROLL = """Scenarist_SCC V1.0
+
+00:00:01:00\t9425 9425 94ad 94ad 9470 9470 d2ef ecec 20ef 6e65
+
+00:00:03:00\t94ad 94ad 9470 9470 d2ef ecec 20f4 f7ef
+
+00:00:05:00\t94ad 94ad 9470 9470 d2ef ecec 20f4 68f2 e5e5
+
+00:00:07:00\t94ad 94ad
+"""
 DFXP_NONE = """<?xml version="1.0" encoding="utf-8"?>
 <tt xml:lang="en" xmlns="http://www.w3.org/ns/ttml"><body><div xml:lang="en-US"></div></body></tt>
 """
@@ -199,7 +209,7 @@ SRT_NONE = "1\n"
 
 def docs():
     return {
-        "scc_long": ("SCC", SCC_LONG), "scc_left": ("SCC", SCC_LEFT), "scc_badtc": ("SCC", SCC_BADTC),
+        "scc_roll": ("SCC", SCC_ROLL), "scc_long": ("SCC", SCC_LONG), "scc_left": ("SCC", SCC_LEFT), "scc_badtc": ("SCC", SCC_BADTC),
         "dfxp_none": ("DFXP", DFXP_NONE), "dfxp_ta": ("DFXP", DFXP_TA), "sami_ta": ("SAMI", SAMI_TA),
         "vtt_bad": ("WebVTT", VTT_BAD), "srt_none": ("SRT", SRT_NONE), "dfxp_sloppy": ("DFXP", DFXP_SLOPPY), "dfxp_plang": ("DFXP", DFXP_PLANG),
         "srt1": ("SRT", _head(_ex("example.srt"), "\n\n", 8)), "srt2": ("SRT", SRT2),
